@@ -1,6 +1,6 @@
 (* C10 - compression is transparent and honours the requested mode.  Statements only (partial). *)
 From Coq Require Import List ZArith NArith.
-From DOS Require Import Generated Base Store StoreProofs StoreLemmas Mono Compress.
+From DOS Require Import Generated Base Store StoreProofs StoreLemmas Mono Compress Programs PackProofs RepackProofs AddPackProofs ImportProofs C10Proofs.
 Import ListNotations.
 
 (* should_compress as a function of the mode: the AUTO verdict is an oracle (heuristic), the other three are fixed *)
@@ -33,6 +33,41 @@ Qed.
 Theorem C10_repack_keeps_keys : forall d rs o n,
   map rkey (apply_sql (apply_sql d (SUpdateRows rs)) (SRepoint o n)) = map rkey d.
 Proof. intros. rewrite repoint_keys, updaterows_keys. reflexivity. Qed.
+(* program level, ALL inputs: after the completed call every index entry written by it has exactly the FORM of the object handed over for
+   its key - the compressed flag the mode decided (should_compress, an oracle for AUTO), the stored length = number of bytes of the blob
+   in the pack, the size = what the caller recorded (the content length: aobj_ok / obj_ok / robj_ok) - and every other entry is the old one *)
+Hypothesis H_inj : forall a b, H a = H b -> a = b.
+Theorem C10_pack_writes_the_requested_form : forall w l id objs fs clean,
+  Inv H inflate w -> pending l = [] ->
+  Forall (obj_ok inflate w) objs -> NoDup (map okey objs) -> (forall o, In o objs -> ~ In (okey o) (map rkey (db w))) ->
+  forall r, In r (db (fst (run_events (w, l) (p_pack_one w id objs fs clean)))) ->
+    In r (db w) \/ exists o, In o objs /\ row_of_obj r o /\ rpack r = id.
+Proof. exact (pack_one_forms H inflate H_inj). Qed.
+
+Theorem C10_direct_and_import_write_the_requested_form : forall w l bs nh twice fs,
+  Inv H inflate w -> pending l = [] -> Forall (fun b => Forall (aobj_ok H inflate) (snd b)) bs ->
+  forall r, In r (db (fst (run_events (w, l) (p_import w nh twice fs bs)))) ->
+    In r (db w) \/ exists b o, In b bs /\ In o (snd b) /\ row_of_obj r o /\ rpack r = fst b.
+Proof. exact (import_forms H inflate H_inj). Qed.
+
+Theorem C10_repack_writes_the_requested_form : forall w l id objs,
+  Inv H inflate w -> pending l = [] -> id <> REPACK -> get_pack w REPACK = None ->
+  Forall (robj_ok inflate w id) objs ->
+  (forall r, In r (db w) -> rpack r = id -> In (rkey r) (map okey objs)) ->
+  rows_of_pack (db w) id <> [] ->
+  exists w' l', run_events (w, l) (p_repack_one w id objs) = (w', l') /\
+    (forall r, In r (db w') -> rpack r = id -> exists o, In o objs /\ row_of_obj r o) /\
+    (forall r, In r (db w') -> rpack r <> id -> In r (db w)).
+Proof. exact (repack_forms H inflate). Qed.
+
+(* the uniform modes: all objects handed over compressed (YES) / plain (NO) => every entry of the repacked pack is compressed / plain *)
+Theorem C10_repack_uniform_mode : forall w l id objs (b : bool),
+  Inv H inflate w -> pending l = [] -> id <> REPACK -> get_pack w REPACK = None ->
+  Forall (robj_ok inflate w id) objs ->
+  (forall r, In r (db w) -> rpack r = id -> In (rkey r) (map okey objs)) ->
+  rows_of_pack (db w) id <> [] -> (forall o, In o objs -> ocomp o = b) ->
+  forall r, In r (db (fst (run_events (w, l) (p_repack_one w id objs)))) -> rpack r = id -> rcomp r = b.
+Proof. exact (repack_all_compressed H inflate). Qed.
 End C10.
 
 (* the AUTO heuristic (estimate_compression) on a stream of the length it is told: every seek stays inside [0, size] (so the
@@ -51,3 +86,7 @@ Print Assumptions C10_transparent.
 Print Assumptions C10_plain_length_is_size.
 Print Assumptions C10_repack_keeps_keys.
 Print Assumptions C10_threshold.
+Print Assumptions C10_pack_writes_the_requested_form.
+Print Assumptions C10_direct_and_import_write_the_requested_form.
+Print Assumptions C10_repack_writes_the_requested_form.
+Print Assumptions C10_repack_uniform_mode.
